@@ -121,6 +121,7 @@ class C03Case:
         self.trace = []
         self.stats = {}
         self.declared = {}      # step key -> files declared but not read
+        self.must_edges = {}
         self.always = set()     # keys of always-outdated steps
         self.pending_must = set()   # steps that have to re-run when asked
         self.pending_may = set()    # steps that may re-run when asked
@@ -201,27 +202,100 @@ class C03Case:
                 out.add(f)
         return out
 
+    def files_of_ref(self, ref):
+        """Produced/source files a script-level reference stands for."""
+        ref = ref.strip()
+        g = self.graph
+        m = re.match(r"^(gen2?)(\[(\d+)\])?$", ref)
+        if m:
+            st = next((s for s in self.proj.stmts('build_step')
+                       if s.var == m.group(1)), None)
+            if st is None:
+                return set()
+            outs = st.facts['outs']
+            if m.group(3) is not None:
+                outs = [outs[int(m.group(3))]]
+            elif len(outs) > 1:
+                outs = list(outs)
+            return {'build/' + o for o in outs}
+        if ref.startswith(("'", '"')):
+            return {'src/' + ref.strip("'\"")}
+        out = self.outputs_named(ref)
+        if ref == 'sublib':
+            out |= {f for f in g.producer
+                    if os.path.basename(f) == 'libsublib.a'}
+        return out
+
+    @staticmethod
+    def list_arg(text, name):
+        """Items of the list literal passed as keyword `name` (brackets may
+        nest: extra_deps=[gen[0], 'data/x.txt'])."""
+        i = text.find(name + '=[')
+        if i < 0:
+            return []
+        i += len(name) + 2
+        depth, cur, items = 1, '', []
+        while i < len(text) and depth:
+            ch = text[i]
+            if ch == '[':
+                depth += 1
+            elif ch == ']':
+                depth -= 1
+                if depth == 0:
+                    break
+            if ch == ',' and depth == 1:
+                items.append(cur)
+                cur = ''
+            else:
+                cur += ch
+            i += 1
+        if cur.strip():
+            items.append(cur)
+        return [x.strip() for x in items if x.strip()]
+
     def compute_declared(self):
-        """Upper-band edges: every output of every library a target names in
-        libs= counts as a possible input of that target's link step."""
+        """Edges the script declares although the stub tool does not read
+        the file.  must: extra_deps and explicitly passed (generated)
+        headers.  may: every output of every library named in libs=."""
+        g = self.graph
         self.declared = {}
+        self.must_edges = {}
         for st in self.proj.stmts():
             if st.kind not in ('executable', 'library', 'static_library',
-                               'shared_library') or not st.var:
+                               'shared_library', 'whole_archive') or \
+               not st.var:
                 continue
-            refs = re.findall(r'libs=\[([^\]]*)\]', st.text)
-            if not refs:
-                continue
-            libvars = [v.strip() for v in refs[0].split(',') if v.strip()]
+            own = self.outputs_named(st.var)
+            link_keys = {g.producer[f] for f in own if f in g.producer}
             lib_files = set()
-            for lv in libvars:
-                lib_files |= self.outputs_named(lv)
-                if lv == 'sublib':
-                    lib_files |= {f for f in self.graph.producer
-                                  if os.path.basename(f) == 'libsublib.a'}
-            for f in self.outputs_named(st.var):
-                k = self.graph.producer[f]
-                self.declared.setdefault(k, set()).update(lib_files)
+            for lv in self.list_arg(st.text, 'libs'):
+                lib_files |= self.files_of_ref(lv)
+            if lib_files:
+                for k in link_keys:
+                    self.declared.setdefault(k, set()).update(lib_files)
+            dep_files = set()
+            for dv in self.list_arg(st.text, 'extra_deps'):
+                dep_files |= self.files_of_ref(dv)
+            if dep_files:
+                for k in link_keys:
+                    self.must_edges.setdefault(k, set()).update(dep_files)
+            if 'gen[1]' in st.text and 'includes=' in st.text:
+                # an explicitly passed generated header: every object of
+                # this target depends on it, included or not
+                hdr = self.files_of_ref('gen[1]')
+                own = {'src/' + q for q in re.findall(
+                    r"'([^']+\.c)'", st.text.split('includes=')[0])}
+                own |= self.files_of_ref('gen[0]')
+                for k in link_keys:
+                    for f in g.steps[k]['reads']:
+                        ok = g.producer.get(f)
+                        # only the objects this target compiles itself get
+                        # its includes (shared object_files have their own)
+                        if ok and f.endswith('.o') and \
+                           g.steps[ok]['reads'] & own:
+                            self.must_edges.setdefault(ok, set()).update(hdr)
+        for k, fs in self.must_edges.items():
+            self.declared.setdefault(k, set()).update(fs)
         self.always = set()
         for st in self.proj.stmts('build_step'):
             if 'always_outdated=True' in st.text:
@@ -239,7 +313,8 @@ class C03Case:
 
     # -- oracles ----------------------------------------------------------------
     def note_edit(self, edited):
-        self.pending_must |= self.graph.downstream_of(edited)
+        self.pending_must |= self.graph.downstream_of(edited,
+                                                      self.must_edges)
         self.pending_may |= self.graph.downstream_of(edited, self.declared)
         k = self.graph.producer.get(edited)
         if k is not None:
@@ -263,7 +338,7 @@ class C03Case:
     def check_band(self, r, edited, goal_files, label):
         g = self.graph
         clo_may = g.closure_of_files(goal_files, self.declared)
-        clo_must = g.closure_of_files(goal_files)
+        clo_must = g.closure_of_files(goal_files, self.must_edges)
         must = self.pending_must & clo_must
         may = (self.pending_may & clo_may) | self.always_closure(clo_may)
         must |= self.always & clo_must
@@ -364,6 +439,7 @@ class Runner:
         self.default_files = set()
         self.everything = []
         self.touched_intermediate = False
+        self.built = set()      # goal tuples built since the last edit
 
     def goal_files(self, goals):
         if not goals:
@@ -387,6 +463,7 @@ class Runner:
                 raise HarnessError('configure failed:\n' + r.output[-3000:])
         elif k == 'all':
             r = c.build([], label='all')
+            self.built.add(())
             self.all_ran = set(executed(r))
             for key in self.all_ran:
                 self.default_files |= g.steps[key]['writes']
@@ -414,7 +491,13 @@ class Runner:
             if self.all_ran is not None:
                 check_default_membership(c, self.all_ran, None)
         elif k == 'null':
-            c.null_build(op[1], self.goal_files(op[1]))
+            key = tuple(op[1])
+            if key not in self.built:
+                # (a shrunk history may have lost the preceding build)
+                c.build(op[1], label='build')
+                self.built.add(key)
+            else:
+                c.null_build(op[1], self.goal_files(op[1]))
         elif k == 'edit':
             f = op[1]
             p = os.path.join(w.root, f)
@@ -427,8 +510,10 @@ class Runner:
                 self.touched_intermediate = True
             c.trace.append(['edit', f])
             c.note_edit(f)
+            self.built.clear()
         elif k == 'build-check':
             goals = op[1]
+            self.built.add(tuple(goals))
             r = c.build(goals, label='build')
             if c.violations:
                 return
@@ -445,6 +530,7 @@ class Runner:
             if not rf.ok:
                 c.count('fired.step_failure')
             r2 = c.build(goals, label='rebuild-after-failure')
+            self.built.add(tuple(goals))
             if c.violations:
                 return
 
@@ -486,7 +572,7 @@ class Runner:
                 c.violations[-1].features.append('isolated-goal')
                 return
             ran = set(executed(r4))
-            must = g.closure_of_files({f})
+            must = g.closure_of_files({f}, c.must_edges)
             may = g.closure_of_files({f}, c.declared) | \
                 c.always_closure(g.closure_of_files({f}, c.declared))
             if must - ran:
@@ -543,6 +629,8 @@ def run_case(seed, root, params=None):
             if do(op):
                 return
         sources = sorted({f for st in g.steps.values() for f in st['reads']
+                          if f.startswith('src/')} |
+                         {f for fs in c.must_edges.values() for f in fs
                           if f.startswith('src/')})
         inter = sorted({f for st in g.steps.values() for f in st['reads']
                         if f in g.producer})
@@ -649,6 +737,8 @@ def check_default_membership(c, all_ran, rng):
             want = set()
             for t in model['tests']:
                 want |= c.outputs_named(t)
+            for f in model.get('test_deps_files', []):
+                want.add('build/' + f)
             may = set()
             for k in g.closure_of_files(want, c.declared):
                 may |= g.steps[k]['writes']
